@@ -719,6 +719,12 @@ pub fn render(p: &Program, lay: &Layout, rng: &mut Rng) -> Rendered {
                 spans[ii] = Some((start, text.len() - start));
             }
         }
+        if let Item::Stmt { stmt: Stmt::Stringz(body), .. } = item {
+            if w && body.ends_with("\\\\") && rng.bool() {
+                // the string ends in an escaped backslash; the comment behind it has a quote of its own
+                text.push_str(rng.s(&[" ; root of the 3.5\" disk", "\t; say \"hi\"", " ;\""]));
+            }
+        }
         let ends_in_a_word = match item {
             Item::Break | Item::End | Item::LabelBreak(_) => true,
             Item::Stmt { stmt, .. } => matches!(stmt, Stmt::Ret | Stmt::Rets | Stmt::Rti | Stmt::Alias(_)),
